@@ -24,7 +24,7 @@ import ibldsp.voltage as voltage  # noqa: E402
 PROP = "C06"
 LEVEL = "exploration"
 TIERS = {
-    "quick": {"runs": 260, "budget_s": 480, "det_pairs": 3},
+    "quick": {"runs": 400, "budget_s": 480, "det_pairs": 3},
     "thorough": {"runs": 100000, "budget_s": 1800, "det_pairs": 6},
 }
 RUN_TIMEOUT = 900
